@@ -225,11 +225,11 @@ const cliAlias = "target"
 
 func runCli(f []string) string {
 	mode, hidden, name, gskip, hskip, ca, kind := f[1], f[2] == "hid", f[3], f[4], f[5], f[6], f[7]
+	cliFiles()
 	g, h, ok := cliBlocks(name, gskip, hskip, ca)
 	if !ok || !okTri(gskip) || !okTri(hskip) || (mode != "toml" && mode != "struct") || (f[2] != "disc" && f[2] != "hid") {
 		return "bad-op"
 	}
-	cliFiles()
 	sv, err := cliStartServer(kind, hidden)
 	if err != nil {
 		if err.Error() == "bad server kind" {
